@@ -283,6 +283,11 @@ func (c *v7Cache) Remove(seq int, beginIndex, endIndex int32) error {
 	}
 	if endIndex != math.MaxInt32 {
 		c.h.shiftedSlot[seq] = true // a context shift (or its failure path) touched this sequence
+		if err == nil {
+			c.h.out.Count("br_shift_ok")
+		} else {
+			c.h.out.Count("br_shift_failed_reprocess")
+		}
 	}
 	if c.h.cfg.window > 0 && endIndex != math.MaxInt32 && beginIndex < endIndex {
 		c.h.swaShifted[seq] = true
@@ -841,6 +846,28 @@ func (h *v7Harness) doStep(e *v7Event) (string, bool) {
 	if len(h.batch) == 0 {
 		h.out.Count("step_empty_batch")
 	}
+	// branch counters for the theorems about the executable processBatch (Properties/C07Batch.lean)
+	seqsInBatch := map[int]int{}
+	for _, b := range h.batch {
+		seqsInBatch[b.seq]++
+	}
+	if len(seqsInBatch) >= 2 {
+		h.out.Count("br_mixed_batch")
+	}
+	if len(h.batch) == h.cfg.batch && h.cfg.batch > 0 {
+		for _, sq := range h.live {
+			if sq != nil && len(sq.inputs) > 0 && len(h.outs) < len(seqsInBatch) {
+				h.out.Count("br_batch_full_inputs_left")
+				break
+			}
+		}
+	}
+	for _, n := range seqsInBatch {
+		if n >= 2 {
+			h.out.Count("br_multi_input_run")
+			break
+		}
+	}
 	h.out.Add("batch_tokens", len(h.batch))
 	return sb.String(), true
 }
@@ -899,6 +926,14 @@ func v7Int32s(xs []int) []int32 {
 // fresh runner (empty cache) produces for the same prompt.
 func (h *v7Harness) finish(i int) {
 	h.out.Count("req_finished")
+	switch g := h.gen[i]; {
+	case h.live[i].doneReason == llm.DoneReasonLength:
+		h.out.Count("br_done_numpredict")
+	case len(g) > 0 && g[len(g)-1] == h.cfg.vocab-1:
+		h.out.Count("br_done_eos")
+	default:
+		h.out.Count("br_done_stop_string")
+	}
 	if h.shiftedSlot[h.live[i].cache.Id] {
 		h.out.Count("req_finished_shifted")
 		return
